@@ -52,3 +52,21 @@ Definition ext_decoded (e : ext) : Prop := match e with XSuppVer v => decoded v 
 Definition sh_decoded (h : server_hello) : Prop := decoded (sh_ver h) /\ Forall ext_decoded (sh_exts h).
 Definition ch_decoded (c : chv) : Prop :=
   decoded (ch_legacy c) /\ match ch_sv c with Some l => Forall valid_ver l | None => True end.
+
+(* ---- enable/disable histories: what the application was told.  A suite is currently disabled (per session / globally)
+   when the last operation on it that reported success was a disable. *)
+Definition op_target (op : dop) : bool * N := match op with DDis i => (false, i) | DEn i => (false, i) | GDis i => (true, i) | GEn i => (true, i) end.
+Definition op_disables (op : dop) : bool := match op with DDis _ | GDis _ => true | _ => false end.
+Fixpoint cur_disabled (glob : bool) (id : N) (trace : list (dop * rc)) (acc : bool) : bool :=
+  match trace with
+  | [] => acc
+  | (op, RcOk) :: r => let '(g, i) := op_target op in
+                       cur_disabled glob id r (if Bool.eqb g glob && (i =? id) then op_disables op else acc)
+  | _ :: r => cur_disabled glob id r acc
+  end.
+(* a history that never disables (per session) a suite that is already on the session's list *)
+Fixpoint no_redundant (st : dstate) (ops : list dop) : bool :=
+  match ops with
+  | [] => true
+  | op :: r => (match op with DDis i => negb (mem i (d_slots st)) | _ => true end) && no_redundant (fst (set_status st op)) r
+  end.
